@@ -141,11 +141,16 @@ def builtin(it, name):
             elif isinstance(t, Module):
                 nm = t.name
                 if nm in ("pd.Series",) and isinstance(v, Vec):
-                    return True
+                    # a Vec carrying an index tag is a Series; one without (np.zeros, .values, np.array) is a plain array
+                    if v.fresh or v.aligned:
+                        return True
+                    continue
                 if nm in ("pd.DataFrame",) and isinstance(v, DF):
                     return True
                 if nm in ("np.ndarray",) and isinstance(v, Vec):
-                    return True
+                    if not (v.fresh or v.aligned):
+                        return True
+                    continue
                 if nm in ("collections.abc.Callable", "typing.Callable") and isinstance(v, (Closure, BoundMethod)):
                     return True
         return False
@@ -1396,7 +1401,9 @@ def ext_call(it, dotted, args, kw):
         if isinstance(a0, Vec):
             return Vec([fill] * len(a0.v))
         if isinstance(a0, int):
-            return Vec([fill] * a0)
+            r = Vec([fill] * a0)
+            r.exact = True                                   # a literal length
+            return r
         return Opaque(name)
     if name in ("np.repeat", "np.full"):
         val, cnt = (args[0], args[1]) if name == "np.repeat" else (args[1], args[0])
@@ -1521,7 +1528,13 @@ def ext_call(it, dotted, args, kw):
             r.labels, r.exact = list(ix.labels), True
             return r
         if isinstance(a0, Vec):
-            return Vec(a0.v, fresh=fresh and not a0.aligned, aligned=a0.aligned and name == "pd.Series")
+            r = Vec(a0.v, fresh=fresh and not a0.aligned, aligned=a0.aligned and name == "pd.Series")
+            r.exact = a0.exact
+            if r.fresh and r.exact:
+                r.labels = list(range(len(r.v)))             # pd.Series(<array>): labels 0..n-1
+            elif r.aligned and a0.labels is not None:
+                r.labels = a0.labels
+            return r
         if isinstance(a0, (list, tuple)):
             return Vec(list(a0), fresh=fresh)
         if isinstance(a0, Opaque):
